@@ -1,5 +1,7 @@
 package core
 
+import "strconv"
+
 // C02 — fact search returns exactly the stored facts that match.
 //
 // O2 (state level). Unit: IndexedState/LinearState.{Add,Rem,Get,Search} (add, rem,
@@ -101,7 +103,14 @@ func vhC02Get(env *vhEnv, ref []*vhRefFact) {
 
 // vhC02Search: Search returns exactly the stored matching facts with their bindings.
 func vhC02Search(env *vhEnv, ref []*vhRefFact, pshape int) {
-	p := vhPatternC("p", pshape)
+	vhC02SearchP(env, ref, "p", pshape)
+}
+
+func vhC02SearchP(env *vhEnv, ref []*vhRefFact, prefix string, pshape int) {
+	vhC02SearchPat(env, ref, vhPatternC(prefix, pshape))
+}
+
+func vhC02SearchPat(env *vhEnv, ref []*vhRefFact, p Map) {
 	srs, err := env.state.Search(env.ctx, p)
 	vassert(err == nil, "search-no-error")
 	if err != nil {
@@ -171,5 +180,34 @@ func VH_C02_search(kind, op1, op2, op3, pshape int) {
 	ref = vhC02Op(env, ref, 2, op2)
 	ref = vhC02Op(env, ref, 3, op3)
 	vhC02Search(env, ref, pshape)
+	vreach("end")
+}
+
+// VH_C02_search2: a search does not change what a later search returns. nfacts one-key
+// facts with string values under distinct ids, a first search (checked), then a second
+// search with another pattern (checked), then Get. Pattern leaves: a symbolic constant or
+// a variable; p2 == 2 is the match-everything pattern.
+func VH_C02_search2(kind, nfacts, p1, p2 int) {
+	env := vhNewEnv(kind)
+	var ref []*vhRefFact
+	for i := 0; i < nfacts; i++ {
+		f := Map{vhCKey(): vsymStrN("f"+strconv.Itoa(i)+".v", 2)}
+		id := "id" + strconv.Itoa(i)
+		_, err := env.state.Add(env.ctx, id, f)
+		vassert(err == nil, "add-succeeds")
+		ref = vhRefPut(ref, id, f)
+	}
+	pat := func(tag string, kind int) Map {
+		switch kind {
+		case 0:
+			return Map{vhCKey(): vsymStrN(tag+".c", 2)}
+		case 1:
+			return Map{vhCKey(): "?x"}
+		}
+		return Map{}
+	}
+	vhC02SearchPat(env, ref, pat("p", p1))
+	vhC02SearchPat(env, ref, pat("q", p2))
+	vhC02Get(env, ref)
 	vreach("end")
 }
